@@ -58,16 +58,46 @@ func splitOp(line string) (op []string, obs []string) {
 }
 
 func splitOpH(line string) (op []string, obs []string, h string) {
+	op, obs, h, _ = splitOpHP(line)
+	return
+}
+
+// splitOpHP also returns the chain token p=<16 hex>: the hash of (previous line's p, this line's text without p).
+func splitOpHP(line string) (op []string, obs []string, h, p string) {
 	parts := strings.SplitN(line, ";", 2)
 	op = strings.Fields(parts[0])
 	if len(parts) == 2 {
 		obs = strings.Fields(parts[1])
+		if n := len(obs); n > 0 && strings.HasPrefix(obs[n-1], "p=") {
+			p = obs[n-1][2:]
+			obs = obs[:n-1]
+		}
 		if n := len(obs); n > 0 && strings.HasPrefix(obs[n-1], "h=") {
 			h = obs[n-1][2:]
 			obs = obs[:n-1]
 		}
 	}
 	return
+}
+
+// chainText: the text of a line that its chain hash covers (all tokens but p=, single-spaced; as the Lean driver).
+func chainText(line string) string {
+	var keep []string
+	for _, t := range strings.Fields(line) {
+		if !strings.HasPrefix(t, "p=") {
+			keep = append(keep, t)
+		}
+	}
+	return strings.Join(keep, " ")
+}
+
+// chainNext: the chain value after a line (an init line starts a new chain).
+func chainNext(prev, line string) string {
+	f := strings.Fields(line)
+	if len(f) == 3 && f[0] == "init" {
+		return fnv64(chainText(line))
+	}
+	return fnv64(prev + "|" + chainText(line))
 }
 
 // fnv64 is FNV-1a over the bytes of s (the Lean driver computes the same).
@@ -80,9 +110,12 @@ func fnv64(s string) string {
 	return fmt.Sprintf("%016x", h)
 }
 
-// record: the operation line as the histories store it: operation ; observed status and amounts ; hash of the answer.
-func record(op []string, res, answer string) string {
-	return strings.Join(op, " ") + " ; " + res + " h=" + fnv64(answer)
+// record: the operation line as the histories store it: operation ; observed status and amounts ; hash of the
+// answer ; chain hash. `chain` is the chain value before the line and is advanced.
+func record(chain *string, op []string, res, answer string) string {
+	text := strings.Join(strings.Fields(strings.Join(op, " ")+" ; "+res+" h="+fnv64(answer)), " ")
+	*chain = chainNext(*chain, text)
+	return text + " p=" + *chain
 }
 
 func (x *world) provider(kind string, i int) (*actor, int) {
@@ -219,6 +252,8 @@ func wellFormed(op []string) bool {
 		return n == 2 && isP(a[0]) && isIdx(a[1], provBound(a[0]))
 	case "shut":
 		return n == 2 && a[0] == "b" && isIdx(a[1], nBlobbers)
+	case "shutby":
+		return n == 2 && isIdx(a[0], nBlobbers) && isIdx(a[1], nClients)
 	case "fin", "cancel":
 		return n == 2 && isNat(a[0]) && isCaller(a[1])
 	case "wpl":
@@ -460,6 +495,19 @@ func (x *world) run(op []string) string {
 			del = 1
 		}
 		return fmt.Sprintf("ok %d %d", as, del)
+	case "shutby": // shutby i j : shutdown_blobber sent by client j (the delegate wallet may, a stranger may not)
+		i, j := atoi(op[1]), atoi(op[2])
+		r := x.exec(x.cli[j], "shutdown_blobber", 0, map[string]string{"provider_id": x.blob[i].ID})
+		if r.status != "ok" {
+			return st(r)
+		}
+		after := x.snapshot()
+		as, _ := x.spOf(after, "b", i)
+		del := 0
+		if !after.S.Blobbers[i].Present {
+			del = 1
+		}
+		return fmt.Sprintf("ok %d %d", as, del)
 	case "fin", "cancel": // fin k caller ; obs per blobber allocation: pm:dp:rw:cc,...
 		if len(op) != 3 {
 			return bad
@@ -659,15 +707,19 @@ func (x *world) updObs(before, after *snap, k int, op []string) string {
 				old, found = o.CV, true
 			}
 		}
+		// the difference as the machine computes it: the contract decrements the value with an unchecked uint64
+		// subtraction (allocation.go 812), so a decrement beyond the value shows up as a huge value; int64 of the
+		// wrapped difference is the signed adjustment
+		delta := int64(d.CV - old)
 		switch {
 		case !found:
 			ds = append(ds, "0")
-		case d.CV >= old:
-			ds = append(ds, fmt.Sprintf("%d", d.CV-old))
-			pos += d.CV - old
+		case delta >= 0:
+			ds = append(ds, fmt.Sprintf("%d", delta))
+			pos += uint64(delta)
 		default:
-			ds = append(ds, fmt.Sprintf("-%d", old-d.CV))
-			neg += old - d.CV
+			ds = append(ds, fmt.Sprintf("%d", delta))
+			neg += uint64(-delta)
 		}
 	}
 	var rw, cc, dp, cr uint64
